@@ -13,7 +13,7 @@ print('REPRODUCED' if iff.coord.file != 'f.c' else 'NOT-REPRODUCED')
 
 
 def run(tier, seed):
-    res = G.gx(None, ["coord"], "C11/gx", tier)
+    res = G.gx(None, ["coord", "concrete"], "C11/gx", tier)
     from pyvc.smt_props import run_functions
     import contracts.parser_core  # noqa
     res.add(run_functions(["CParser._coord", "CParser._tok_coord", "CParser._parse_error", "CParser._tok_coord#file"], "C11/smt", tier))
